@@ -284,6 +284,63 @@ pub fn run(ctx: &mut Ctx) {
                 Err(p) => ctx.violation(&format!("request/panic/{}", p.signature()), &format!("{:?}", p), replay_env(&re)),
             }
         }
+        // the argument accessors of Expression and Request answer like the same lookups on the independently
+        // assembled reference envelope (function + one assertion per argument)
+        {
+            ctx.eval();
+            ctx.count("argument_accessor_checks");
+            let mut probes: Vec<Parameter> = params.clone();
+            probes.push(Parameter::new_named("no-such-parameter"));
+            let same = |a: Result<Envelope, anyhow::Error>, b: Result<Envelope, anyhow::Error>| match (a, b) {
+                (Ok(x), Ok(y)) => env_bytes(&x) == env_bytes(&y),
+                (Err(_), Err(_)) => true,
+                _ => false,
+            };
+            for p in &probes {
+                let pe_ = Envelope::new(p.clone());
+                let r = trap::guard(|| {
+                    let mut ok = true;
+                    ok &= same(expr.object_for_parameter(p.clone()), reference.object_for_predicate(pe_.clone()));
+                    ok &= same(req.object_for_parameter(p.clone()), reference.object_for_predicate(pe_.clone()));
+                    let want: Vec<Vec<u8>> = reference.objects_for_predicate(pe_.clone()).iter().map(env_bytes).collect();
+                    let mut g1: Vec<Vec<u8>> = expr.objects_for_parameter(p.clone()).iter().map(env_bytes).collect();
+                    let mut g2: Vec<Vec<u8>> = req.objects_for_parameter(p.clone()).iter().map(env_bytes).collect();
+                    let mut w = want.clone();
+                    w.sort();
+                    g1.sort();
+                    g2.sort();
+                    ok &= g1 == w && g2 == w;
+                    // typed forms: the same answers as the typed lookups on the reference
+                    macro_rules! typed {
+                        ($t:ty) => {{
+                            let a = expr.extract_object_for_parameter::<$t>(p.clone()).ok();
+                            let b = req.extract_object_for_parameter::<$t>(p.clone()).ok();
+                            let c = reference.extract_object_for_predicate::<$t>(pe_.clone()).ok();
+                            ok &= a == c && b == c;
+                            let a = expr.extract_optional_object_for_parameter::<$t>(p.clone()).ok();
+                            let b = req.extract_optional_object_for_parameter::<$t>(p.clone()).ok();
+                            let c = reference.extract_optional_object_for_predicate::<$t>(pe_.clone()).ok();
+                            ok &= a == c && b == c;
+                            let a = expr.extract_objects_for_parameter::<$t>(p.clone()).ok().map(|mut v| { v.sort(); v });
+                            let b = req.extract_objects_for_parameter::<$t>(p.clone()).ok().map(|mut v| { v.sort(); v });
+                            let c = reference.extract_objects_for_predicate::<$t>(pe_.clone()).ok().map(|mut v| { v.sort(); v });
+                            ok &= a == c && b == c;
+                        }};
+                    }
+                    typed!(u64);
+                    typed!(String);
+                    ok
+                });
+                match r {
+                    Ok(true) => {}
+                    Ok(false) => ctx.violation("accessors/argument-lookup-differs", &format!("an argument accessor of Expression / Request for parameter {:?} answers differently from the same lookup on the reference envelope", p), replay_env(&re)),
+                    Err(pn) => ctx.violation(&format!("accessors/panic/{}", pn.signature()), &format!("{:?}", pn), replay_env(&re)),
+                }
+            }
+            if req.function() != &f || expr.function() != &f || env_bytes(req.expression_envelope()) != env_bytes(&reference) || env_bytes(expr.expression_envelope()) != env_bytes(&reference) || req.body() != &expr || Expression::from(req.clone()) != expr {
+                ctx.violation("accessors/function-or-body", "function() / expression_envelope() / body() / Expression::from(request) disagree with what the request was built from", replay_env(&re));
+            }
+        }
         // malformed requests
         let body_a = re.assertion_with_predicate(known_values::BODY).unwrap();
         let malformed_req: Vec<(&str, Envelope)> = vec![
@@ -358,6 +415,33 @@ pub fn run(ctx: &mut Ctx) {
                 Ok(Ok(back)) => {
                     if env_bytes(&Envelope::from(back.clone())) != env_bytes(&pe) {
                         ctx.violation(&format!("response/reserialise-differs/{}", label), "the parsed response serialises to another envelope", replay_env(&pe));
+                    }
+                    // the accessors of the parsed response: the value that was given, on the side it was given
+                    // (text modulo NFC: a string handed over in another normalisation form is stored in NFC)
+                    let nfc = |x: Option<String>| x.map(|t| unicode_normalization::UnicodeNormalization::nfc(t.as_str()).collect::<String>());
+                    let acc_ok = trap::guard(|| {
+                        let mut ok = back.is_err() == (variant > 1);
+                        if variant != 4 {
+                            ok &= back.expect_id() == id;
+                        }
+                        match variant {
+                            1 => {
+                                ok &= back.result().map(|r| env_bytes(r) == env_bytes(&val)).unwrap_or(false) && back.error().is_err();
+                                ok &= back.extract_result::<u64>().ok() == val.extract_subject::<u64>().ok() && nfc(back.extract_result::<String>().ok()) == nfc(val.extract_subject::<String>().ok());
+                            }
+                            2 => {
+                                ok &= back.error().map(|r| env_bytes(r) == env_bytes(&val)).unwrap_or(false) && back.result().is_err();
+                                ok &= back.extract_error::<u64>().ok() == val.extract_subject::<u64>().ok() && nfc(back.extract_error::<String>().ok()) == nfc(val.extract_subject::<String>().ok());
+                            }
+                            0 => ok &= back.result().is_ok() && back.error().is_err(),
+                            _ => ok &= back.result().is_err() && back.error().is_ok(),
+                        }
+                        ok
+                    });
+                    match acc_ok {
+                        Ok(true) => {}
+                        Ok(false) => ctx.violation(&format!("response/accessors-differ/{}", label), "is_err / expect_id / result / error / extract_result / extract_error of the parsed response do not give back what the response was built from", replay_env(&pe)),
+                        Err(pn) => ctx.violation(&format!("response/accessor-panic/{}", pn.signature()), &format!("{:?}", pn), replay_env(&pe)),
                     }
                     if back != resp || back.is_ok() != (variant <= 1) || back.id() != if variant == 4 { None } else { Some(id) } {
                         ctx.violation(&format!("response/roundtrip-differs/{}", label), "parsed response differs from the original", replay_env(&pe));
